@@ -184,6 +184,17 @@ def h_stft(ctx, cfg):
     ctx.prove(len(ola_calls) == 1 and ola_calls[0] == {"size": size, "hop": size, "normalize": False, "wnd": None},
               "ola_-options-override-the-inherited-size-and-hop", "ola got %r" % (ola_calls,))
     return
+  elif style == "ola_custom":
+    # an overlap-add strategy with options of its own: exactly the prefix is stripped, whatever the rest looks like
+    got = []
+    def my_ola(blk_sig, size=None, hop=None, **kw):
+      got.append(dict(kw))
+      return overlap_add.list(blk_sig, size=size, hop=hop, normalize=False)
+    opts = {"level": 7, "a": 1, "_x": 2, "ola_y": 3, "lo": 4, "o": 5, "alpha_": 6}
+    wrapped = stft(func, size=size, hop=hop, wnd=wnd, ola=my_ola, **dict(common, **{"ola_" + k: v for k, v in opts.items()}))
+    list(wrapped(list(x)))
+    ctx.prove(len(got) == 1 and got[0] == opts, "ola_-prefix-is-stripped-exactly", "ola got %r" % (got,))
+    return
   out = list(res)
   ctx.prove(len(ola_calls) == 1, "ola-called-once")
   if ola_calls:
@@ -223,6 +234,14 @@ def h_stft_args(ctx, cfg):
   ctx.prove(raises(TypeError, lambda: stft(f, size=2, hop=1, bogus=1, **common)(list(x))), "unknown-option-is-TypeError")
   ctx.prove(raises(TypeError, lambda: stft(f, size=2, hop=1, ola=None, ola_normalize=False, **common)(list(x))),
             "ola_-option-without-ola-is-TypeError")
+  # an option of the overlap-add strategy given WITHOUT the prefix is not passed on, also when the strategy would take it
+  reached = []
+  def any_ola(blk_sig, **kw):
+    reached.append(dict(kw))
+    return overlap_add.list(blk_sig, **{k: v for k, v in kw.items() if k in ("size", "hop", "normalize", "wnd")})
+  for name, val in (("normalize", False), ("level", 1), ("wnd_", None)):
+    raises(TypeError, lambda: stft(f, size=2, hop=1, ola=any_ola, **dict(common, **{name: val}))(list(x)))   # refused today
+    ctx.prove(not any(name in kw for kw in reached), "only-ola_-options-reach-the-overlap-add", "%s reached the ola" % name)
   # ola=None returns the processed blocks themselves
   blks = list(stft(lambda b: list(b), size=2, hop=1, ola=None, **common)(list(x)))
   ctx.prove(len(blks) == _nblocks(4, 2, 1) and all(len(b) == 2 for b in blks), "ola=None-yields-blocks", "n=%d" % len(blks))
@@ -260,4 +279,5 @@ def tasks(tier, seed):
   T.append(("h_stft_args", {}))
   for size, hop in ((4, 2), (3, 1)):
     T.append(("h_stft", {"size": size, "hop": hop, "L": size + 2, "style": "ola_override", "wkind": "list"}))
+    T.append(("h_stft", {"size": size, "hop": hop, "L": size + 2, "style": "ola_custom", "wkind": "list"}))
   return T
